@@ -162,7 +162,7 @@ PROPS = {
         "streams": [{"stream": "disasm", "profile": "mix", "quick": 3000, "thorough": 100000, "thorough_seeds": 1, "corpus": "disasm"}],
         "trusted": ["the Lean transcriptions in Model/Disasm.lean of bufio.Scanner (ScanLines, 64 KiB limit), strings.Fields/Contains/HasPrefix/Join, the two regular expressions (leftmost-first, greedy) and strconv.ParseInt(s, 0, 64) — compared with the Go standard library through the parser on every run (disasm stream)",
                     "Go panics are observed by recover() in the harness and reported as the reply PANIC; the model answers PANIC exactly where one of its slicing/indexing primitives fails, and C16.parse_total proves that never happens"],
-        "assumptions": ["read failures in the middle of a file cannot be injected into os.Open/bufio on the real code without a hook: the implementation is run on a directory (first read fails), a missing path and over-long lines (ErrTooLong after earlier lines were processed); failures after k lines are covered by the theorem on the model only",
+        "assumptions": ["read failures: the implementation is run on a directory and a /proc file (first read fails), a missing path, over-long lines (ErrTooLong after earlier lines were processed) and, in a child under strace fault injection, on long listings whose second or third read(2) fails with EIO (where strace cannot trace, these cases are skipped and counted as read-fault:not-injected); failure after every other number of lines is covered by the theorem on the model",
                         "int is 64 bits wide on the host (int(num) is the identity)"],
     },
     "C12": {
